@@ -18,5 +18,10 @@ def f_rt_quat : Family := { name := "rt_quat", kind := .syn, keys := [[0],[1]], 
 def f_vp_quat : Family :=
   { name := "vp_quat", kind := .syn, keys := [[0],[1]], nOut := fun _ => 4,
     spec := fun k j => if k0 k = 1 then v j else v ((j + 1) % 4) }
-def families : List Family := [f_rt_vec, f_rt_mat, f_vp_mat, f_rt_quat, f_vp_quat]
+def f_rt_mata : Family := { name := "rt_mata", kind := .syn, keys := [[2],[3],[4]], nOut := fun k => k0 k * k0 k, spec := fun _ j => v j }
+/-- `make_vecN(vecM)`: the first `min N M` components, then zeros, and `1` in the fourth place of a padded `vec4` -/
+def f_mkvec : Family :=
+  { name := "mkvec", kind := .syn, keys := [[1,1],[1,2],[1,3],[1,4],[2,1],[2,2],[2,3],[2,4],[3,1],[3,2],[3,3],[3,4],[4,1],[4,2],[4,3],[4,4]], nOut := k0,
+    spec := fun k j => if j < k1 k then v j else if j = 3 then one else zero }
+def families : List Family := [f_rt_vec, f_rt_mat, f_vp_mat, f_rt_quat, f_vp_quat, f_rt_mata, f_mkvec]
 end Glm.Spec.C16
